@@ -75,10 +75,10 @@ type pathCtx struct {
 	baseSec  *Term // T0 in seconds
 	mockNow  value // frozen mock clock value (a Time structure) or nil
 
-	tickCount map[value]int
-	choices   map[string]int
-	roundMemo map[string]*Term
-	nameMemo  map[string]*Term
+	tickCount    map[value]int
+	choices      map[string]int
+	roundMemo    map[string]*Term
+	nameMemo     map[string]*Term
 	inconclusive []string
 }
 
